@@ -99,6 +99,8 @@ impl WalHandle {
             while let Some(msg) = rx.recv().await {
                 match msg {
                     WalMessage::Entry(entry) => {
+                        #[cfg(feature = "sim-hooks")]
+                        crate::sim_hooks::gate("wal.before_append", format!("s{}", shard_id)).await;
                         if let Err(err) = writer.append_immediate(&entry) {
                             error!(
                                 target: "wal_handle::spawn_wal_thread",
